@@ -295,9 +295,41 @@ def h_int_runs(L: int, a1: int, a2: int, a3: int, a4: int, f: int, pos: int):
     return True
 
 
+RED_FORMS = ('red', 'RED', 'fg red', 'fg-red', 'Fg_Red', 31, '31', '[31', AnsiFormat.RED, AnsiFormat.FG_RED, [AnsiFormat.FG_RED], ('red',), [['red']],
+             AnsiSetting('31'), [31], 'rgb(255,0,0)', AnsiFormat.rgb(255, 0, 0), [38, 2, 255, 0, 0], '38;2;255;0;0')
+
+
+def h_spell_history(f: int, g: int, cls: int):
+    """Every spelling gives the same per-character settings through a nested editing history as well."""
+    fm = choose(f, RED_FORMS)
+    if fm is None:
+        return None
+    gm = choose(g, ('blue', AnsiFormat.BLUE, 34, ['blue']))
+    if gm is None or cls not in (0, 1):
+        return None
+    one = [str(x) for x in AnsiString('a', fm).ansi_settings_at(0)]     # the text this spelling reports (checked against the codes elsewhere)
+    if len(one) != 1 or one[0] not in ('31', '38;2;255;0;0'):
+        return ('spelling-of-red', repr(fm), one)
+    red = one[0]
+    s = AnsiString('abcd') if cls == 0 else AnsiStr('abcd')
+    if cls == 0:
+        s.apply_formatting(fm, 0, 4)
+        s.apply_formatting(gm, 1, 4)
+        s.apply_formatting(fm, 2, 3)
+    else:
+        s = s.apply_formatting(fm, 0, 4).apply_formatting(gm, 1, 4).apply_formatting(fm, 2, 3)
+    got = [[str(x) for x in s.ansi_settings_at(i)] for i in range(4)]
+    exp = [[red], [red, '34'], [red, '34', red], [red, '34']]
+    if got != exp:
+        return ('spelling-history-differs', repr(fm), got, exp)
+    cover('history')
+    return True
+
+
 BAD_NAMES = ('redd', 'bold_', 'fg', 'nosuch', 'rgb', 'rgb()', 'color256', 'bold red', 'reD!', '1.5', '0x10', 'bg_', '--', 'bold,red')
 BAD_RGB = ('rgb(1,2)', 'rgb(1,2,3,4)', 'rgb(-1,2,3)', 'rgb(1;2;3)', 'rgb(x)', 'rgb(1,2,3', 'rgb 1,2,3', 'xx_rgb(1,2,3)', 'rgb(0x,1,2)',
-           'color256()', 'color256(1,2)', 'colr256(1)', 'color256(-1)', 'ul-rgb(1,2,3)', 'rgb(1.0,2,3)')
+           'color256()', 'color256(1,2)', 'colr256(1)', 'color256(-1)', 'ul-rgb(1,2,3)', 'rgb(1.0,2,3)', 'xcolor256(5)', 'bold color256(5)',
+           'bgcolor256(5)', 'xrgb(1,2,3)', 'fg_bg_color256(5)', 'color256(5)x', 'rgb(1,2,3))')
 NEG = (-1, -2, -255, -256, -2 ** 31, -10 ** 20)
 BAD_TYPES = (1.5, b'red', {'a': 1}, object, 2 + 3j, {1, 2})
 
@@ -386,6 +418,7 @@ def obligations(tier):
         obs.append(Ob('rgb-string/f%d' % f, h_rgb_string, dict(f=f), need=('rgb-string',), budget=900,
                       bounds='form %r x 5 prefixes x 10^3 values' % SFORMS[f], kinds=KINDS))
     obs.append(Ob('rgb24-string', h_rgb24_string, {}, need=('rgb24-string',), budget=300, bounds='5 prefixes x 10 values x dec/hex', kinds=KINDS))
+    obs.append(Ob('spell-history', h_spell_history, {}, need=('history',), budget=600, bounds='19 spellings of red x 4 of blue x nested history x 2 classes', kinds=KINDS))
     obs.append(Ob('nest', h_nest, {}, need=('nest',), budget=300, bounds='15 nestings x 2 classes', kinds=KINDS))
     maxL = 3 if q else 4
     for L in range(1, maxL + 1):
